@@ -199,3 +199,216 @@ pub fn impure_values_lane(t: &mut crate::run::Tctx, prop: &str) {
         }
     }
 }
+
+// ------------------------------------------------------------------ sequences of top-level calls on one thread
+
+/// Emits one field, then refuses (a custom error from a nested value).
+pub struct FailAfter(pub u32);
+impl serde::Serialize for FailAfter {
+    fn serialize<S: serde::Serializer>(&self, s: S) -> Result<S::Ok, S::Error> {
+        use serde::ser::SerializeTuple;
+        let mut t = s.serialize_tuple(3)?;
+        t.serialize_element(&self.0)?;
+        t.serialize_element("partly written")?;
+        Err(<S::Error as serde::ser::Error>::custom("refused after two elements"))
+    }
+}
+/// A sequence of undeclared length in a non-first position.
+pub struct UnknownLenSecond(pub u16);
+impl serde::Serialize for UnknownLenSecond {
+    fn serialize<S: serde::Serializer>(&self, s: S) -> Result<S::Ok, S::Error> {
+        use serde::ser::SerializeTuple;
+        struct Hidden;
+        impl serde::Serialize for Hidden {
+            fn serialize<S: serde::Serializer>(&self, s: S) -> Result<S::Ok, S::Error> {
+                use serde::ser::SerializeSeq;
+                let mut q = s.serialize_seq(None)?;
+                q.serialize_element(&1u8)?;
+                q.end()
+            }
+        }
+        let mut t = s.serialize_tuple(2)?;
+        t.serialize_element(&self.0)?;
+        t.serialize_element(&Hidden)?;
+        t.end()
+    }
+}
+/// Display that writes some text and then fails (or not), serialised through collect_str.
+pub struct DisplayMaybeFails(pub String, pub bool);
+impl std::fmt::Display for DisplayMaybeFails {
+    fn fmt(&self, f: &mut std::fmt::Formatter<'_>) -> std::fmt::Result {
+        f.write_str("temp=")?;
+        f.write_str(&self.0)?;
+        if self.1 {
+            return Err(std::fmt::Error);
+        }
+        Ok(())
+    }
+}
+impl serde::Serialize for DisplayMaybeFails {
+    fn serialize<S: serde::Serializer>(&self, s: S) -> Result<S::Ok, S::Error> {
+        s.collect_str(self)
+    }
+}
+/// An ordinary message with a fixed-width field.
+#[derive(serde::Serialize)]
+pub struct GoodMsg {
+    pub a: u32,
+    #[serde(with = "postcard::fixint::le")]
+    pub b: u32,
+    pub s: String,
+    #[serde(with = "postcard::fixint::be")]
+    pub c: u16,
+}
+impl GoodMsg {
+    pub fn spec_bytes(&self) -> Vec<u8> {
+        let mut o = Vec::new();
+        crate::spec::varint(self.a as u128, &mut o);
+        o.extend_from_slice(&self.b.to_le_bytes());
+        crate::spec::varint(self.s.len() as u128, &mut o);
+        o.extend_from_slice(self.s.as_bytes());
+        o.extend_from_slice(&self.c.to_be_bytes());
+        o
+    }
+}
+
+/// Every public encode entry point, called several times in a row on one thread: after a call that FAILED half
+/// way (a value that refuses, an undeclared sequence length, a Display impl that writes and then fails), after a
+/// call that succeeded, and re-entrantly (a Serialize impl that encodes a sub-message with the same entry point
+/// and embeds it as bytes).  Each successful call must produce exactly the framing of its own value's encoding:
+/// nothing may leak from one top-level call into another.  Signature `<prop>:call-sequence-differs:<entry>`.
+static SEQ_C32: crc::Crc<u32> = crc::Crc::<u32>::new(&crc::CRC_32_ISCSI);
+
+pub fn call_sequences_lane(t: &mut crate::run::Tctx, prop: &str) {
+    use crate::mem::catch;
+    use crate::refs::cobs_encode;
+    use crate::run::kv;
+    let c32 = &SEQ_C32;
+    let rounds = t.cfg.scale(1, 60, 600);
+    #[derive(Clone, Copy, PartialEq)]
+    enum Fr {
+        Plain,
+        Cobs,
+        Crc,
+    }
+    let frame = |f: Fr, plain: &[u8]| -> Vec<u8> {
+        match f {
+            Fr::Plain => plain.to_vec(),
+            Fr::Cobs => {
+                let mut o = cobs_encode(plain);
+                o.push(0);
+                o
+            }
+            Fr::Crc => {
+                let mut o = plain.to_vec();
+                o.extend_from_slice(&c32.checksum(plain).to_le_bytes());
+                o
+            }
+        }
+    };
+    for round in 0..rounds {
+        if t.cfg.expired() {
+            break;
+        }
+        let g1 = GoodMsg { a: crate::gen::gen_uint(&mut t.rng, 32) as u32, b: t.rng.next() as u32, s: crate::gen::gen_string(&mut t.rng, 10), c: t.rng.next() as u16 };
+        let g2 = GoodMsg { a: round as u32, b: !g1.b, s: crate::gen::gen_string(&mut t.rng, 40), c: 0x0102 };
+        let text = crate::gen::gen_string(&mut t.rng, 8);
+        macro_rules! entry {
+            ($name:expr, $fr:expr, |$v:ident| $call:expr) => {{
+                let fr: Fr = $fr;
+                // a sub-message encoded by the SAME entry point from inside a Serialize impl
+                struct Outer<'a>(&'a GoodMsg, u16);
+                impl serde::Serialize for Outer<'_> {
+                    fn serialize<S: serde::Serializer>(&self, s: S) -> Result<S::Ok, S::Error> {
+                        use serde::ser::SerializeTuple;
+                        let mut t = s.serialize_tuple(3)?;
+                        t.serialize_element(&0x0403_0201u32)?;
+                        let inner: Vec<u8> = {
+                            let $v = self.0;
+                            let r: postcard::Result<Vec<u8>> = $call;
+                            r.map_err(|_| <S::Error as serde::ser::Error>::custom("inner encode failed"))?
+                        };
+                        t.serialize_element(&Bytes(&inner))?;
+                        t.serialize_element(&self.1)?;
+                        t.end()
+                    }
+                }
+                let mut steps: Vec<(&str, bool, Result<postcard::Result<Vec<u8>>, String>, Vec<u8>)> = Vec::new();
+                steps.push(("value that refuses after two elements", false, catch(|| { let $v = &FailAfter(round as u32); $call }), Vec::new()));
+                steps.push(("good value after a refused one", true, catch(|| { let $v = &g1; $call }), frame(fr, &g1.spec_bytes())));
+                steps.push(("sequence of undeclared length in second position", false, catch(|| { let $v = &UnknownLenSecond(7); $call }), Vec::new()));
+                steps.push(("good value after the undeclared-length failure", true, catch(|| { let $v = &g2; $call }), frame(fr, &g2.spec_bytes())));
+                steps.push(("Display that writes and then fails", false, catch(|| { let $v = &DisplayMaybeFails(text.clone(), true); $call }), Vec::new()));
+                steps.push(("formatted text after the failing Display", true, catch(|| { let $v = &DisplayMaybeFails(text.clone(), false); $call }), frame(fr, &crate::spec::encode(&crate::model::Val::Str(format!("temp={}", text))))));
+                steps.push(("good value after a good one", true, catch(|| { let $v = &g1; $call }), frame(fr, &g1.spec_bytes())));
+                {
+                    // re-entrant call: expected = tuple(u32, bytes(inner frame), u16)
+                    let inner = frame(fr, &g2.spec_bytes());
+                    let mut want = Vec::new();
+                    crate::spec::varint(0x0403_0201u128, &mut want);
+                    crate::spec::varint(inner.len() as u128, &mut want);
+                    want.extend_from_slice(&inner);
+                    crate::spec::varint(513, &mut want);
+                    steps.push(("message embedding a sub-message encoded by the same entry point", true, catch(|| { let o = Outer(&g2, 513); let $v = &o; $call }), frame(fr, &want)));
+                }
+                steps.push(("good value after the re-entrant one", true, catch(|| { let $v = &g2; $call }), frame(fr, &g2.spec_bytes())));
+                for (what, should_succeed, got, want) in steps {
+                    t.st.eval();
+                    t.st.count("call_sequence_steps");
+                    let okay = match (&got, should_succeed) {
+                        (Ok(Ok(b)), true) => *b == want,
+                        (Ok(Err(_)), false) => true,
+                        _ => false,
+                    };
+                    if !okay {
+                        t.st.violation(
+                            &format!("{}:call-sequence-differs:{}", prop, $name),
+                            format!(
+                                "{}, step '{}': got {:?}, expected {}",
+                                $name,
+                                what,
+                                got.map(|r| r.map(|b| hexs(&b)).map_err(|e| err_label(&e))),
+                                if should_succeed { hexs(&want) } else { "an error".to_string() }
+                            ),
+                            vec![kv("kind", "call-sequence"), kv("entry", $name)],
+                        );
+                        return;
+                    }
+                }
+            }};
+        }
+        entry!("to_allocvec", Fr::Plain, |v| postcard::to_allocvec(v));
+        entry!("to_stdvec", Fr::Plain, |v| postcard::to_stdvec(v));
+        entry!("to_extend", Fr::Plain, |v| postcard::to_extend(v, Vec::new()));
+        entry!("to_io", Fr::Plain, |v| postcard::to_io(v, Vec::new()));
+        entry!("to_eio", Fr::Plain, |v| postcard::to_eio(v, super::io::EioEnd(super::io::Endpoint::writer(super::io::Sched::Whole, super::io::Fault::None))).map(|w| w.0.data));
+        entry!("to_vec<160>", Fr::Plain, |v| postcard::to_vec::<_, 160>(v).map(|x| x.to_vec()));
+        entry!("to_slice", Fr::Plain, |v| {
+            let mut b = vec![0u8; 200];
+            postcard::to_slice(v, &mut b).map(|s| s.to_vec())
+        });
+        entry!("to_allocvec_cobs", Fr::Cobs, |v| postcard::to_allocvec_cobs(v));
+        entry!("to_stdvec_cobs", Fr::Cobs, |v| postcard::to_stdvec_cobs(v));
+        entry!("to_vec_cobs<200>", Fr::Cobs, |v| postcard::to_vec_cobs::<_, 200>(v).map(|x| x.to_vec()));
+        entry!("to_slice_cobs", Fr::Cobs, |v| {
+            let mut b = vec![0u8; 240];
+            postcard::to_slice_cobs(v, &mut b).map(|s| s.to_vec())
+        });
+        entry!("to_allocvec_crc32", Fr::Crc, |v| postcard::to_allocvec_crc32(v, SEQ_C32.digest()));
+        entry!("to_stdvec_crc32", Fr::Crc, |v| postcard::to_stdvec_crc32(v, SEQ_C32.digest()));
+        entry!("to_vec_crc32<200>", Fr::Crc, |v| postcard::to_vec_crc32::<_, 200>(v, SEQ_C32.digest()).map(|x| x.to_vec()));
+        entry!("to_slice_crc32", Fr::Crc, |v| {
+            let mut b = vec![0u8; 240];
+            postcard::to_slice_crc32(v, &mut b, SEQ_C32.digest()).map(|s| s.to_vec())
+        });
+        t.st.count("call_sequence_rounds");
+    }
+}
+
+/// bytes as `serialize_bytes`
+struct Bytes<'a>(&'a [u8]);
+impl serde::Serialize for Bytes<'_> {
+    fn serialize<S: serde::Serializer>(&self, s: S) -> Result<S::Ok, S::Error> {
+        s.serialize_bytes(self.0)
+    }
+}
